@@ -59,6 +59,17 @@ func c01Eval(c *Config, t TreeCase) string {
 		if !bytes.Equal(w, b3) {
 			return fmt.Sprintf("wire: read+serialise does not reproduce the bytes: in %x out %x", w, b3)
 		}
+		// the same read overlapping with a read on another source, after an oversize message
+		if len(w) > 20 {
+			m4, err := ReadOverlapped(w, c.A.D.P)
+			if err != nil {
+				return "wire: a well-formed message cannot be read while another source is being read: " + err.Error()
+			}
+			b4, err := m4.Serialize()
+			if err != nil || !bytes.Equal(w, b4) {
+				return fmt.Sprintf("wire: read (overlapping with a read from another source, after an oversize message) + serialise does not reproduce the bytes at byte %d (err %v)", firstDiff(b4, w), err)
+			}
+		}
 		return ""
 	})
 }
@@ -151,6 +162,7 @@ func runC01(ctx *ev.Ctx) {
 			ctx.Report(c01Class(mt, what), generalise(what), what+" | case: "+mt.Desc(), mt)
 		}
 	})
+	ctx.Rule += " Every case is written with WriteTo into a destination that, before it consumes the bytes, lets another message pass through WriteTo on another writer; and every wire image is read a second time overlapping with a complete read from another source (nested inside the reader's third Read call, i.e. after the header and half of the body), after a message too large for the pooled read buffer has been read."
 	ctx.Assume = []string{"refcodec (independent RFC 6733 encoder) is correct; it has its own self-test", "values are drawn from finite boundary-first alphabets per data type; nothing outside them is claimed"}
 }
 
